@@ -177,16 +177,16 @@ func (ex *Exec) initialArrayAxioms(name, v string, s Sort, entry bool) {
 	case "M_Slice":
 		ex.emit("(assert (forall ((a Int)) (! (and (>= (slen (select %s a)) 0) (>= (soff (select %s a)) 0) (>= (scap (select %s a)) (slen (select %s a))) (=> (= (sarr (select %s a)) 0) (= (slen (select %s a)) 0))) :pattern ((select %s a)))))", v, v, v, v, v, v, v)
 		if entry {
-			ex.emit("(assert (forall ((a Int)) (! (<= (root (sarr (select %s a))) allocbase) :pattern ((select %s a)))))", v, v)
+			ex.emit("(assert (forall ((a Int)) (! (=> (<= (root a) allocbase) (<= (root (sarr (select %s a))) allocbase)) :pattern ((select %s a)))))", v, v)
 		}
 	case "M_Ref":
 		ex.umapAxiom(v)
 		if entry {
-			ex.emit("(assert (forall ((a Int)) (! (<= (root (select %s a)) allocbase) :pattern ((select %s a)))))", v, v)
+			ex.emit("(assert (forall ((a Int)) (! (=> (<= (root a) allocbase) (<= (root (select %s a)) allocbase)) :pattern ((select %s a)))))", v, v)
 		}
 	case "M_Iface":
 		if entry {
-			ex.emit("(assert (forall ((a Int)) (! (<= (root (ival (select %s a))) allocbase) :pattern ((select %s a)))))", v, v)
+			ex.emit("(assert (forall ((a Int)) (! (=> (<= (root a) allocbase) (<= (root (ival (select %s a))) allocbase)) :pattern ((select %s a)))))", v, v)
 		}
 	case "ML":
 		ex.emit("(assert (forall ((a Int)) (! (>= (select %s a) 0) :pattern ((select %s a)))))", v, v)
